@@ -18,7 +18,7 @@ import corr_persist
 FAMILIES = []
 BRIDGES = []
 PROPS_V = 'Props/C17.v'
-EXTRA_TARGETS = ['Model/PersistCheck.vo']
+EXTRA_TARGETS = ['Model/PersistCheck.vo', 'Model/NumCheck.vo']
 BUDGET = {'quick': 60, 'thorough': 1200}
 ORACLE_RULE = ('generated process models (1..6 rows, units kg/SI/GPU, molar or mass feed compositions, values 1e-9..1e3, None-valued optional fields, both storage modes), '
                'diffusion curves (3 permeate modes, molar/mass), permeance functions (binary and JSON), conditions (JSON), and sequences of 2..5 saves under one membrane '
